@@ -157,6 +157,13 @@ theorem refused_value_iff (g : Graph) :
       | input => exact absurd ⟨hu, hs, hi⟩ (hinp.1 hb)
       | value => rfl
 
+/-- The result (acceptance, order, dependents, dependencies, or the refusal class) is a function of the
+    *sets* of direct dependencies: listing a variable's dependencies in another order, or repeating one,
+    changes nothing. (Together with `build` being a function, this is the determinism clause.) -/
+theorem deterministic {g g' : Graph} (hn : g.n = g'.n) (h : ∀ m a, a ∈ g.anc m ↔ a ∈ g'.anc m) :
+    build g = build g' :=
+  build_congr hn h
+
 /-- The modelled `while` loop needs no more than `n + 1` turns: it always ends with an empty queue
     (so the fuel in the model never cuts the real loop short). -/
 theorem loop_terminates (g : Graph) (hs : NoSelf g) : (kahnRun g).queue = [] :=
